@@ -124,6 +124,11 @@ def check_tree(data: dict, lab: Labels) -> None:
                 else:
                     _expect_raises(ValueError, lambda: tree.get_depth(ln, relative_to=lm),
                                    "get_depth-relative-non-ancestor", f"node {n.uid} rel {m.uid}")
+                    # documented: the depth is counted up to relative_to only "if it is the ancestor at
+                    # all"; with the check switched off a non-ancestor is never met and the walk ends at the root
+                    got3 = tree.get_depth(ln, lm, False)
+                    require(got3 == len(ch), "get_depth-relative-non-ancestor",
+                            f"node {n.uid} rel {m.uid} check_ancestor=False: expected the absolute depth {len(ch)}, got {got3}")
 
     order = data["order"] // 2 % 3
     if order == 0:
